@@ -366,5 +366,28 @@ func labelsC07(c *Case, tr *Trace) []string {
 			ls = append(ls, "released="+o.Kind)
 		}
 	}
+	if c.Cfg.Cap != 0 && (c.Cfg.Dir == "fwd" || c.Cfg.Dir == "rev") {
+		// bounded carrier: was the same-step clause in force (nothing of the calling end parked inside the carrier), and was the
+		// calling end's direction of the pipe actually full then (a frame emitted before the event, delivered only after it)?
+		callerDir := C2S
+		if c.Cfg.Dir == "rev" {
+			callerDir = S2C
+		}
+		if tr.Events[0].CapBlocked[callerDir] {
+			ls = append(ls, "bounded:carrier_send_parked_at_event")
+		} else {
+			queued := 0
+			for _, f := range tr.Frames {
+				if f.SendErr == "" && f.Stream == 0 && f.Dir == callerDir && f.Step <= fired && (f.Delivered < 0 || f.Delivered > fired) {
+					queued++
+				}
+			}
+			if queued >= c.Cfg.Cap {
+				ls = append(ls, "bounded:pipe_full_nobody_parked_at_event")
+			} else {
+				ls = append(ls, "bounded:pipe_has_room_at_event")
+			}
+		}
+	}
 	return ls
 }
